@@ -52,14 +52,28 @@ def make(z):
     return {2: sp.Line, 3: sp.QuadraticBezier, 4: sp.CubicBezier}[len(z)](*z)
 
 
-def check_pair(ck, c1, c2, scale, exact):
+def check_pair(ck, c1, c2, scale, exact, reassigned_from=None):
     P1, P2, a, D = c1['P'], c2['P'], c1['a'], c1['D']
     n = len(P1) - 1
     z = [complex(x * scale, y * scale) for x, y in zip(P1, P2)]
     t = a / D
     tq = F(a, D)
-    seg = make(z)
-    fpc = (tuple(P1), tuple(P2), a, D, scale)
+    if reassigned_from is None:
+        seg = make(z)
+    else:
+        # an object that was built with other control points, fully queried, and then had its control points reassigned
+        # (keeping some of them where the vectors agree) must answer like a fresh one
+        seg = make([complex(x * scale, y * scale) for x, y in zip(reassigned_from['P'], c2['P'])])
+        for warm in (seg.poly, lambda: seg.points([0.25, 0.5]), lambda: seg.point(0.5), lambda: seg.derivative(0.5), seg.length, seg.bbox):
+            try:
+                warm()
+            except Exception:      # noqa  (e.g. derivative of a zero-length Line asserts)
+                pass
+        names = {2: ('start', 'end'), 3: ('start', 'control', 'end'), 4: ('start', 'control1', 'control2', 'end')}[len(z)]
+        for nm, w in zip(names, z):
+            if getattr(seg, nm) != w:
+                setattr(seg, nm, w)
+    fpc = (tuple(P1), tuple(P2), a, D, scale, None if reassigned_from is None else tuple(reassigned_from['P']))
     ck.case(fp=fpc, nontrivial=a not in (0, D) and len(set(z)) > 1)
     site = 'svgpathtools/path.py:%s' % type(seg).__name__
     tol = 0 if exact else 1e-12
@@ -165,6 +179,9 @@ def run(ck):
                     check_pair(ck, c1, c2, 2.0 ** 20 if exact else 1e6, exact)
                 if i % 16 == 0:
                     check_pair(ck, c1, c1, 1, exact)        # collinear along the diagonal (coincident where P repeats)
+                if i % 3 == 0:
+                    check_pair(ck, c1, c2, 1, exact, reassigned_from=lst[(i * 5 + 1) % m])
+                    ck.count('reassigned_control_points')
         ck.sample('pair/D=%d' % D, {'P1': lst[0]['P'], 'P2': lst[1 % m]['P'], 'a': lst[0]['a'], 'D': D})
     if off:
         ck.parts['note'] = 'a method now has a data-dependent branch: the decision degrades to agreement on the grid (see assumptions)'
